@@ -2,6 +2,8 @@
 
 package codon
 
+import "sort"
+
 // NCBI genetic codes written independently of the library's 64-letter strings:
 // the standard code plus, per table, the list of reassigned codons (NCBI
 // "Differences from the Standard Code"), and the start / stop codon lists.
@@ -144,3 +146,32 @@ func ncbiPosTable() string {
 	}
 	return string(t)
 }
+
+func c08Ascii() string {
+	b := make([]byte, 128)
+	for i := range b {
+		b[i] = byte(i)
+	}
+	return string(b)
+}
+
+
+func c06SameSet(a []string, b string) bool {
+	var w []string
+	for i := 0; i+3 <= len(b); i += 4 {
+		w = append(w, b[i:i+3])
+	}
+	x := append([]string{}, a...)
+	sort.Strings(x)
+	sort.Strings(w)
+	if len(x) != len(w) {
+		return false
+	}
+	for i := range x {
+		if x[i] != w[i] {
+			return false
+		}
+	}
+	return true
+}
+
